@@ -295,6 +295,22 @@ theorem c12_refuses (s : St) (h : s.closed = true) :
   refine ⟨by simp [step, hl, h], by intro id; simp [step, h], ?_⟩
   intro hq ha; simp [step, hq, ha, h]
 
+/-- `Accept` does not look at the closed flag before the queue (it did before /repo's fix) -/
+theorem gen_accept : Gen.Session.acceptChecksClosedFirst = false := by decide
+
+/-- **C03/C12 (a stream that was queued when the session closed is still handed to `Accept`).**  Whatever the state —
+closed, swept, broken — an `Accept` takes the oldest queued stream; only the drained queue refuses.  So a short singleplex
+exchange (the peer opens, writes B, closes, its session-closing notice is processed) is not lost when this side gets to
+`Accept` late: the stream is accepted and, its buffer having been closed by the sweep, reads B and then the error. -/
+theorem c12_accept_drains_queue (s : St) (id : Nat) (r : List Nat) (h : s.accq = id :: r) :
+    step s .accept = ({ s with accq := r }, .ok) := by
+  simp [step, gen_accept, h]
+
+/-- the old shape: with the closed test first the queued stream is never handed over -/
+theorem c12_accept_closed_first_witness (s : St) (h : s.closed = true) :
+    (if true && s.closed then (s, Res.refused) else (match s.accq with | _ :: r => ({ s with accq := r }, Res.ok) | [] => (s, Res.block))).2 = .refused := by
+  simp [h]
+
 /-! ## inactivity timer -/
 
 def TmoInv (s : St) : Prop := CountInv s ∧ s.tmoBusy = false
